@@ -144,8 +144,9 @@ SetUpCodeOp(s, n) == IF SetUpErr(s) THEN s ELSE FinishSetUp(IF Derives(s) THEN D
 \* process_data: "need to call set_up() first"; the output must have been made for the template
 ComputeErr(s) == ~s.asu \/ s.out = 0 \/ s.out # s.geo
 \* with the cache on, the cache arrays are indexed [point][detector]: they must exist
-Usable(s) == s.useCache => /\ s.actC.np = s.np /\ s.actC.nd = s.nd
-                           /\ s.attC.np = s.np /\ s.attC.nd = s.nd
+\* (no scatter point above the threshold: nothing is indexed)
+Usable(s) == (s.useCache /\ s.np * s.nd > 0) => /\ s.actC.np = s.np /\ s.actC.nd = s.nd
+                                                /\ s.attC.np = s.np /\ s.attC.nd = s.nd
 Entries(s) == 1..(s.np * s.nd)
 \* the tag a read of entry i returns
 ReadTag(c, i, now, uc) == IF uc /\ c.ent[i] # Empty THEN c.ent[i] ELSE now
@@ -157,7 +158,7 @@ ReadsValid(s, Ra, Rt) ==
   /\ \A i \in Rt : ReadTag(s.attC, i, AttNow(s), s.useCache) = AttNow(s)
   /\ (s.eff # Unset => s.eff = EffNow(s))
 ComputeOp(s, Ra, Rt) ==
-  IF ComputeErr(s) \/ ~Usable(s) THEN s
+  IF ComputeErr(s) \/ ~Usable(s) \/ s.np * s.nd = 0 THEN s
   ELSE [s EXCEPT !.actC = IF s.useCache THEN Fill(@, Ra, ActNow(s)) ELSE @,
                  !.attC = IF s.useCache THEN Fill(@, Rt, AttNow(s)) ELSE @,
                  !.eff = IF @ = Unset THEN EffNow(s) ELSE @]
